@@ -99,7 +99,7 @@ def run(rep):
             importlib.import_module('extract_tracesites').generate()
         except Exception as e:  # noqa
             rep.broken_tie('tools/extract_tracesites.py cannot regenerate the trace-site table from /repo', repr(e)[:2000])
-    vlib.prelude(rep)
+    vlib.prelude(rep, extra_modules=['RsjProps.C10Eval'])
     rng = rep.rng
     quick = rep.tier == 'quick'
     depths = [1, 2, 3, 5, 8, 13] if quick else list(range(1, 30)) + [40, 60]
